@@ -8,7 +8,7 @@ import SupervisorModel.Props.C16
 
     closure          traverse_closed, refused_executes_nothing, traverse_dichotomy   (every attribute table)
     arity            arity_fault, call_runs_body
-    gating           gating_partial (+ gating_sendRemoteCommEvent_counterexample, finding F39), gating_table_ok
+    gating           gating (full; F39 fixed: gating_sendRemoteCommEvent), gating_table_ok
     fault codes      fault_codes_documented, faults_distinct
     multicall        multicall_sequential, multicall_recursion_refused, multicall_elements
     answers          never_500_partial, log_methods_answer (what IS proved of "never an HTTP 500")
@@ -242,27 +242,26 @@ theorem gated_answers_shutdown {σ ν : Type} (g : Gate) (hg : gateOk g = true) 
   | none => simp [gateOk] at hg
 
 /-- the generated table: every method of docs/api.rst's "Process Control" section (process control
-    and configuration: start/stop/signal*, sendProcessStdin, reloadConfig, add/removeProcessGroup,
-    the info methods) except sendRemoteCommEvent is gated; so is every method of the "Status and
+    and configuration: start/stop/signal*, sendProcessStdin, sendRemoteCommEvent, reloadConfig,
+    add/removeProcessGroup, the info methods) is gated; so is every method of the "Status and
     Control" and "Process Logging" sections, and every public attribute of the class (aliases
-    included) except sendRemoteCommEvent -/
+    included).  No exception (F39, fixed in e65d15a: sendRemoteCommEvent used to have no gate). -/
 theorem gating_table_ok :
-    (∀ name ∈ docProcessControlMethods, name ≠ "sendRemoteCommEvent" →
-       ∃ g, gateTable.lookup name = some g ∧ gateOk g = true) ∧
+    (∀ name ∈ docProcessControlMethods, ∃ g, gateTable.lookup name = some g ∧ gateOk g = true) ∧
     (∀ name ∈ docStatusMethods ++ docLoggingMethods, ∃ g, gateTable.lookup name = some g ∧ gateOk g = true) ∧
-    (∀ row ∈ gateTable, row.1 ≠ "sendRemoteCommEvent" → gateOk row.2 = true) := by
+    (∀ row ∈ gateTable, gateOk row.2 = true) := by
   decide
 
-/-- **gating (partial).**  Full statement: for every `name ∈ docProcessControlMethods`, mood below
-    RUNNING ⇒ the answer is SHUTDOWN_STATE and nothing changes.  It fails for exactly one
-    method, `sendRemoteCommEvent`, which never calls `_update` (finding F39, counterexample below);
-    the hypothesis `name ≠ "sendRemoteCommEvent"` excludes it. -/
-theorem gating_partial {σ ν : Type} (name : String) (hn : name ∈ docProcessControlMethods)
-    (hx : name ≠ "sendRemoteCommEvent") (mood : Int) (hm : mood < moodRunning)
+/-- **gating.**  For every `name ∈ docProcessControlMethods` (the process-control and configuration
+    methods), whatever the method's body and its leaves' bodies do: mood below RUNNING ⇒ the answer
+    is SHUTDOWN_STATE and nothing changes.  Full statement, no excluded method (until e65d15a it
+    failed for `sendRemoteCommEvent`, finding F39; its input stays in the regression corpus). -/
+theorem gating {σ ν : Type} (name : String) (hn : name ∈ docProcessControlMethods)
+    (mood : Int) (hm : mood < moodRunning)
     (nLeaf : Nat) (leafBody body : σ → Outcome σ ν × σ) (s : σ) :
     ∃ g c, gateTable.lookup name = some g ∧ faultCode "SHUTDOWN_STATE" = some c ∧
       runGated g mood nLeaf leafBody body s = (.fault c, s) := by
-  obtain ⟨g, hl, hg⟩ := gating_table_ok.1 name hn hx
+  obtain ⟨g, hl, hg⟩ := gating_table_ok.1 name hn
   obtain ⟨c, hc, hr⟩ := gated_answers_shutdown g hg mood hm nLeaf leafBody body s
   exact ⟨g, c, hl, hc, hr⟩
 
@@ -275,10 +274,11 @@ theorem gating_status_logging {σ ν : Type} (name : String) (hn : name ∈ docS
   obtain ⟨c, hc, hr⟩ := gated_answers_shutdown g hg mood hm nLeaf leafBody body s
   exact ⟨g, c, hl, hc, hr⟩
 
-/-- F39: sendRemoteCommEvent is listed under "Process Control", has no gate, and its body runs in
-    every mood -/
-theorem gating_sendRemoteCommEvent_counterexample :
-    "sendRemoteCommEvent" ∈ docProcessControlMethods ∧ gateTable.lookup "sendRemoteCommEvent" = some Gate.none ∧
+/-- F39 (fixed): sendRemoteCommEvent is listed under "Process Control" and its row of the regenerated
+    table is a gated one; and why a row `Gate.none` would not do: such a body runs in every mood -/
+theorem gating_sendRemoteCommEvent :
+    "sendRemoteCommEvent" ∈ docProcessControlMethods ∧
+    (∃ g, gateTable.lookup "sendRemoteCommEvent" = some g ∧ gateOk g = true) ∧
     ∀ (mood : Int) (body : Nat → Outcome Nat Nat × Nat) (s : Nat), runGated Gate.none mood 0 body body s = body s :=
   ⟨by decide, by decide, fun _ _ _ => rfl⟩
 
@@ -286,7 +286,7 @@ theorem gating_sendRemoteCommEvent_counterexample :
 theorem moods_below_running : (moods.filter fun m => decide (m.2 < moodRunning)).map (·.1) = ["SHUTDOWN", "RESTARTING"] := by
   decide
 
-example : ∃ name, name ∈ docProcessControlMethods ∧ name ≠ "sendRemoteCommEvent" := ⟨"startProcess", by decide, by decide⟩
+example : ∃ name, name ∈ docProcessControlMethods := ⟨"sendRemoteCommEvent", by decide⟩
 example : (runGated Gate.first 0 0 (fun s => (.value 0, s + 1)) (fun s => (Outcome.value (σ := Nat) 0, s + 1)) 5).2 = 5 := by decide
 example : (runGated Gate.first 1 0 (fun s => (.value 0, s + 1)) (fun s => (Outcome.value (σ := Nat) 0, s + 1)) 5).2 = 6 := by decide
 example : (runGated (Gate.viaLeaf "signalProcess") 0 3 (fun s => (.value 0, s + 1)) (fun s => (Outcome.value (σ := Nat) 0, s + 1)) 5).2 = 5 := by
@@ -592,7 +592,7 @@ theorem log_methods_answer {σ ν : Type} (emb : Bytes → ν) (embT : RpcLog.Ta
     3. otherwise the body runs exactly once and its outcome is the answer (a TypeError from inside is
        reported as INCORRECT_PARAMETERS), and
        a. if the body is that of a public method of SupervisorNamespaceRPCInterface whose row of the
-          generated gate table is `gateOk` (all of them except sendRemoteCommEvent, `gating_table_ok`)
+          generated gate table is `gateOk` (all of them, `gating_table_ok`)
           and the mood is below RUNNING, the answer is SHUTDOWN_STATE and the state is untouched;
        b. if the body is one of the log methods (readLog, readProcess*Log, tailProcess*Log as
           modelled in RpcLog) the answer is a value or a fault of the `Faults` table.
